@@ -1,6 +1,6 @@
 (* Properties_C01.v — ONLY the property theorems for C01 (font loading is total and memory-safe on arbitrary table bytes).
    Models: Model/SfntModel.v (container / file face), Model/CmapModel.v, Model/Lz4Model.v, Model/VmModel.v (bytecode loader),
-   each hand-written after the parser it names; Model/GlatModel.v (Gloc / Glat reader), Model/PassModel.v (pass header).  The rest of the Silf parser and the Sill / name parsers are not modelled:
+   each hand-written after the parser it names; Model/GlatModel.v (Gloc / Glat reader), Model/PassModel.v (pass header), Model/SilfModel.v (Silf directory and subtable headers).  The rest of the pass parser and the name parser are not modelled:
    DESIGN.md section 6/C01 lists them as covered by the sanitizer oracle only. *)
 From GR Require Import Base.Bytes Base.MemFacts Model.SfntModel Proofs.SfntProofs Model.CmapModel Proofs.CmapSafe Model.Lz4Model Proofs.Lz4Safe
                        Model.VmModel Proofs.VmProofs Base.Mem Model.GlatModel Proofs.GlatProofs Model.ClassMapModel Proofs.ClassMapProofs.
@@ -94,3 +94,33 @@ Example C01_example_classmap :
   read_class_map (mem_of_list [0;2; 0;1;  0;10; 0;14; 0;26;  0;5; 0;9;  0;1; 0;1; 0;0; 0;0; 0;7; 0;3]%N) 0 26 0x20000
   = COk 2 1 [0; 2; 8]%N [5; 9; 1; 1; 0; 0; 7; 3]%N.
 Proof. vm_compute. reflexivity. Qed.
+
+From GR Require Import Model.SilfModel Proofs.SilfProofs.
+From Coq Require Import List.
+Import ListNotations.
+(* The Silf table directory and the subtable headers (Face::readGraphite, Silf::readGraphite): for ARBITRARY table bytes, any glyph
+   and attribute counts, no read falls outside the table -- in the directory loop (which reads entry i without looking at the table
+   length: every subtable accepted before it is at least 31 bytes long and the offsets increase), in the header fields, the
+   justification levels, the pseudo-glyph map, the class map, the pass offset array, or any pass handed to Pass::readPass as the slice
+   [pass_start, pass_end) of its subtable. *)
+Theorem C01_silf_reads_in_bounds : forall (l : bytes) ng na boxes j, snd (read_silf_table (mem_of_list l) ng na boxes) <> Some (j, STrap).
+Proof. intros l ng na boxes j. apply read_silf_table_safe. apply mem_of_list_wf. Qed.
+Print Assumptions C01_silf_reads_in_bounds.
+(* ... and every subtable the loader accepted has its glyph-attribute numbers below numAttrs, its pass numbers ordered
+   (substitution <= positioning <= justification <= numPasses <= 128, the bidi pass absent or between the last two), at most 127
+   ligature components, as many pass slices as passes, and each slice inside the subtable after the passes' start *)
+Theorem C01_silf_accepted_headers_consistent : forall (l : bytes) ng na boxes,
+  Forall (fun h => exists len, (len <= tlen (mem_of_list l))%N /\ hdr_ok len na h) (fst (read_silf_table (mem_of_list l) ng na boxes)).
+Proof. intros l ng na boxes. apply read_silf_table_ok. apply mem_of_list_wf. Qed.
+Print Assumptions C01_silf_accepted_headers_consistent.
+(* non-vacuity: a compiled one-rule font's Silf table (version 2, one subtable, one substitution pass) is accepted whole *)
+Example C01_example_silf :
+  let t := mem_of_list [0; 2; 0; 0; 0; 1; 0; 0; 0; 0; 0; 12; 0; 219; 0; 0; 0; 0; 1; 0; 1; 1; 255; 0; 2; 8; 0; 1; 2; 3; 0; 0; 0; 0; 2; 0; 1; 0; 0; 0; 0; 0; 0; 0; 0; 0;
+    0; 0; 0; 62; 0; 0; 0; 139; 0; 0; 0; 0; 0; 0; 0; 0; 0; 1; 0; 1; 0; 8; 0; 10; 0; 6; 0; 0; 0; 1; 1; 0; 0; 1; 0; 0; 0; 0; 0; 135; 0; 0; 0; 135; 0; 0; 0; 135;
+    0; 0; 0; 0; 0; 2; 0; 1; 0; 1; 0; 1; 0; 1; 0; 0; 0; 0; 0; 0; 0; 5; 0; 5; 0; 0; 0; 0; 0; 1; 0; 0; 0; 0; 0; 0; 0; 1; 0; 0; 0; 0; 0; 0; 0; 0; 0; 0; 0; 4; 0; 1;
+    0; 28; 0; 25; 49]%N in
+  match read_silf_table t 220 8 false with
+  | ([h], None) => h_npass h = 1%N /\ h_passes h = [(62, 139, 1)]%N /\ h_nclass h = 1%N /\ have_passes [h] = true
+  | _ => False
+  end.
+Proof. vm_compute. repeat split. Qed.
